@@ -40,7 +40,7 @@ func VerifyFIDOU2FAttestationStatement(
 
 	// 3. Extract the claimed rpIdHash from authenticatorData, and the claimed credentialId and credentialPublicKey from
 	//    authenticatorData.attestedCredentialData.
-	authenticatorData, err := attestationObject.UnmarshalAuthenticatorData()
+	authenticatorData, err := attestationObject.unmarshalAttestedAuthenticatorData()
 	if err != nil {
 		return nil, fmt.Errorf("%w: %s", ErrInvalidAttestationStatement, err)
 	}
